@@ -41,9 +41,11 @@ def gen_design(rng, n_nodes, kinds, max_inputs=8, maxw=70, hier_depth=0, feedbac
     pool = Pool(rng, max_inputs=max_inputs, maxw=maxw)
     nodes = []
 
-    def emit(kname, params, ins, ows):
+    def emit(kname, params, ins, ows, guard=False):
         nid = len(nodes)
         nodes.append({'id': nid, 'kind': kname, 'p': params, 'ins': list(ins), 'ow': list(ows), 'grp': []})
+        if guard:
+            nodes[-1]['guard'] = True       # divisor guard: never rewired, never pruned away from its divider
         refs = []
         for k, w in enumerate(ows):
             r = 'n%d.%d' % (nid, k)
@@ -78,7 +80,7 @@ def gen_design(rng, n_nodes, kinds, max_inputs=8, maxw=70, hier_depth=0, feedbac
         moore = [(r, w, n['id']) for n in nodes if KINDS[n['kind']].seq and not KINDS[n['kind']].mealy
                  for k, w in enumerate(n['ow']) for r in ['n%d.%d' % (n['id'], k)]]
         for n in nodes:
-            if 'div' in KINDS[n['kind']].tags:
+            if 'div' in KINDS[n['kind']].tags or n.get('guard'):
                 continue        # keep the divisor guard in place
             for j, ref in enumerate(n['ins']):
                 if rng.random() < feedback:
@@ -147,6 +149,21 @@ def prune(desc, keep_ids):
     """sub-design containing only keep_ids (and what they transitively read); used by shrinkers.
     Signals whose producer is dropped become fresh primary inputs."""
     keep = set(keep_ids)
+    byid = {n['id']: n for n in desc['nodes']}
+    # a divider keeps its divisor guard (Or2 with constant 1), otherwise shrinking manufactures divisions by zero
+    grew = True
+    while grew:
+        grew = False
+        for nid in list(keep):
+            n = byid.get(nid)
+            if n is None:
+                continue
+            if 'div' in KINDS[n['kind']].tags or n.get('guard'):
+                for r in n['ins']:
+                    t = parse_ref(r)
+                    if t[0] == 'n' and byid.get(t[1], {}).get('guard') and t[1] not in keep:
+                        keep.add(t[1])
+                        grew = True
     sigw = sig_widths(desc)
     nodes = [dict(n) for n in desc['nodes'] if n['id'] in keep]
     inputs = [dict(i) for i in desc['inputs']]
@@ -440,6 +457,9 @@ def update_poison(built):
                 w = built.wires.get(n['ins'][1])
                 if w is not None and w.get() == 0:
                     hit = True
+                o = built.objs.get(nid)
+                if o is not None and any(getattr(l, '_dsim_divzero', False) for l in o.allLeaves()):
+                    hit = True          # a zero divisor was seen at some evaluation since construction (seams probe)
             if not hit:
                 for r in n['ins']:
                     t = parse_ref(r)
@@ -536,4 +556,5 @@ class Twin:
         self.settle()
 
     def values(self):
-        return {r: w.get() for r, w in self.b.wires.items()}
+        bad = update_poison(self.b)
+        return {r: (None if (bad and r[0] == 'n' and parse_ref(r)[1] in bad) else w.get()) for r, w in self.b.wires.items()}
